@@ -475,7 +475,7 @@ func trailerGlobal(enc *ssa.Function) *ssa.Global {
 // header as (0 < n < len, io.EOF).  No return that hands that error on may be reached
 // while EOF is still possible and n has not been looked at.
 func (p *Prog) shortReadObligation(ea *ErrAtoms, fn *ssa.Function, label string, props []string) Ob {
-	ob := Ob{Rule: "R10", Inst: "c:short-read:" + label, Props: append(append([]string{}, props...), "C05", "C02"), Pos: p.posStr(fn.Pos()), Func: funcLabel(fn), Nontrivial: true}
+	ob := Ob{Rule: "R10", Inst: "c:short-read:" + label, Props: append(append([]string{}, props...), "C05", "C02", "C06"), Pos: p.posStr(fn.Pos()), Func: funcLabel(fn), Nontrivial: true}
 	// header reads: ReadAt into a slice of a fixed-size local array
 	var reads []*ssa.Call
 	for _, b := range fn.Blocks {
